@@ -219,6 +219,9 @@ def _operator_oracle(g, ob, names, Ccard, mode):
     pz = g.pz[None, None, :, None]
     E = np.sqrt(msq + pz**2 + g.pp[None, None, None, :] ** 2)
     c1 = np.broadcast_to(g.dchidxi[None, :, None, None] * gw * (pz - vw * E), (P, M1, N1, N1))
+    # rounding bound of c1: the difference pz - vw E cancels, its error is eps (|pz| + |vw| E), not eps |pz - vw E|
+    # (a behaviour-preserving re-association of the energy moved one entry by 23 of the old bounds, see DESIGN 8.7)
+    c1mag = np.broadcast_to(g.dchidxi[None, :, None, None] * gw * (np.abs(pz) + abs(vw) * E), (P, M1, N1, N1))
     k2 = np.broadcast_to(g.dchidxi[None, :, None, None] * g.drzdpz[None, None, :, None] * gw / 2.0, (P, M1, N1, N1))
     _, _, dm, _, _, bm = _profile_derivs(g, ob, names, mode)
     if mode == "spec":
@@ -244,7 +247,7 @@ def _operator_oracle(g, ob, names, Ccard, mode):
     coll = e8(np.broadcast_to(T2, (P, M1, N1, N1))) * zz(Iz) * Ccard[:, None, :, :, :, None, :, :]
     A = A + coll
     tol = IP * (
-        (cz + 64.0) * EPS * e8(np.abs(c1)) * zz(Az) * rr(Ir) * pp(Ir)
+        (cz + 64.0) * EPS * e8(c1mag) * zz(Az) * rr(Ir) * pp(Ir)
         + ((cr + 64.0) * EPS * e8(np.abs(c2)) + e8(k2 * bm[:, :, None, None])) * zz(Iz) * rr(Ar) * pp(Ir)
     ) + 64.0 * EPS * np.abs(coll)
     n = P * M1 * N1 * N1
